@@ -85,6 +85,23 @@ def ordinary(inputs, output):
     return all(len(s) > 1 or ix in output for ix, s in where.items())
 
 
+def connected_net(inputs):
+    comp = [set(t) for t in inputs]
+    if any(not c for c in comp):
+        return False
+    seen = set(comp[0])
+    rest = comp[1:]
+    changed = True
+    while changed and rest:
+        changed = False
+        for c in list(rest):
+            if c & seen:
+                seen |= c
+                rest.remove(c)
+                changed = True
+    return not rest
+
+
 def no_repeats(inputs):
     return all(len(set(t)) == len(t) for t in inputs)
 
@@ -315,6 +332,23 @@ def work_rep(name, a, b, tier, seed, res):
                     res.violation("reported-flops:RandomGreedyOptimizer",
                                   case, {"reported": 10 ** opt.best_flops,
                                          "real": real})
+                # the same object asked again for the same contraction (it
+                # keeps searching): what it returns each time must cost what
+                # it reports
+                for rep in range(3):
+                    if rep % 2:
+                        ssa = opt.ssa_path(inputs, output, sd)
+                        t = rebuilt_cost(inputs, output, sd, ssa_path=ssa)
+                    else:
+                        t = opt.search(inputs, output, sd)
+                    real = t.total_flops()
+                    if not math.isclose(10 ** opt.best_flops, real,
+                                        rel_tol=1e-9):
+                        res.violation(
+                            "reported-flops:RandomGreedyOptimizer:repeated",
+                            case, {"reported": 10 ** opt.best_flops,
+                                   "real": real, "call": rep + 2})
+                        break
             except Exception as e:
                 res.violation("rep-raises:RandomGreedyOptimizer", case,
                               repr(e))
@@ -354,6 +388,44 @@ def work_rep(name, a, b, tier, seed, res):
                                       {"stored": con["score"], "real": real})
                 except Exception as e:
                     res.violation("rep-raises:ReusableHyper", case, repr(e))
+            # --- windowed refinement of compressed paths: the running totals
+            # it reports vs the tree built from the path it returns
+            if s == 0 and len(inputs) >= 4 and no_repeats(inputs) and \
+                    connected_net(inputs):
+                pc = importlib.import_module(
+                    "cotengra.pathfinders.path_compressed")
+                for chi, wsize in ((10 ** 9, 2), (2, 2), (10 ** 9, 3)):
+                    res.evals += 1
+                    case = {"kind": "rep", "api": "WindowedOptimizer",
+                            "inputs": inputs, "output": output, "sizes": sd,
+                            "chi": chi, "window": wsize}
+                    try:
+                        minimize = ctg.scoring.CompressedPeakObjective(chi)
+                        n = len(inputs)
+                        ssa0 = [(0, 1)] + [(n + k - 1, k + 1)
+                                           for k in range(1, n - 1)]
+                        wo = pc.WindowedOptimizer(
+                            inputs, output, sd, minimize=minimize,
+                            ssa_path=ssa0, seed=s)
+                        wo.refine(window_size=wsize, max_iterations=6,
+                                  max_window_tries=20, order_only=False)
+                        rep_t = wo.tracker
+                        t = ctg.ContractionTreeCompressed.from_path(
+                            inputs, output, sd, ssa_path=wo.get_ssa_path(),
+                            objective=minimize)
+                        st = t.compressed_contract_stats(chi)
+                        for what in ("flops", "write", "max_size",
+                                     "peak_size"):
+                            if getattr(rep_t, what) != getattr(st, what):
+                                res.violation(
+                                    "reported-totals:WindowedOptimizer:"
+                                    + what, case,
+                                    {"reported": getattr(rep_t, what),
+                                     "real": getattr(st, what)})
+                                break
+                    except Exception as e:
+                        res.violation("rep-raises:WindowedOptimizer", case,
+                                      repr(e))
         res.sample({"kind": "rep", "inputs": inputs, "output": output},
                    cap=1)
 
